@@ -94,6 +94,9 @@ def certificate(expr, positives):
 
 
 def run(repo, chk, tier):
+    from ..cacheown import check_persistent_state
+
+    check_persistent_state(repo, chk, ["tf_pwa/phasespace.py", "tf_pwa/config_loader/sample.py"])
     chk.trusted_base[:] = ["AST->sympy translator sa/sym.py (tensor ops mapped to numpy object arrays)", "sympy ring normaliser / factor_list", "composition lemmas stated in the rule texts (induction over the steps; product of factor-wise bounds)"]
     chk.assume("domain: masses positive, positive Q value at every level (m0 = m1 + m2 + t, t > 0): tf.where(p2 <= 0, 0, p2) takes its second branch; boost velocity not exactly zero")
     chk.assume("uniform variates are modelled as free quantities in their range: cos(theta) in (-1, 1) with sin(theta) = sqrt(1 - cos^2) as in the code, phi = 2 atan(tt), mass variates r_k = u_k / (1 + u_k)")
